@@ -35,6 +35,7 @@ SUFFIX_CH = {'': '', '"': '"', "'": "'", 'd': 'd', 'r': 'r', 'i': 'i', 'p': 'p'}
 CLOSE = {'{': '}', '"': '"', "'": "'", '': ''}
 FLAGS = ['select', 'highlite', 'fixed', 'edit', 'move', 'delete', 'source', 'rotate']
 AREA_KINDS = ('circle', 'ellipse', 'rectangle', 'polygon')
+LINE_CHARS = ['\x0b', '\x0c', '\x1c', '\x1d', '\x1e', '\x85', '\u2028', '\u2029', '\r']
 POINT_SYMBOLS = ['circle', 'box', 'diamond', 'cross', 'x', 'arrow', 'boxcircle']
 COLORS = ['red', 'green', 'blue', 'cyan', 'magenta', 'yellow', 'white', 'black', 'pink', 'Orange',
           '#0ff', '#800', '#00aa00', '#888800000000']
@@ -262,6 +263,20 @@ class Gen:
         else:
             s = rng.choice([' padded ', '  two  spaces', 'trail ', ' lead', '', 'a  b'])
             cls = 'spaces'
+        if rng.random() < 0.12:
+            # characters that Unicode (str.splitlines) counts as line boundaries but DS9 does not: only '\n' (and ';'
+            # outside a delimited value) ends a statement, so inside {} "" '' they are ordinary text -- at the start, in the
+            # middle or at the end of the value.  A lone '\r' too (in a FILE it is an old-Mac line end, see read_real).
+            c = rng.choice(LINE_CHARS)
+            where = rng.choice(['start', 'middle', 'end'])
+            if where == 'start':
+                s = c + s
+            elif where == 'end':
+                s = s + c
+            else:
+                k = rng.randint(0, len(s))
+                s = s[:k] + c + s[k:]
+            cls = 'linechars' if cls != 'numeric' else cls
         s = s.replace(CLOSE[d], '')
         return d, s, cls
 
@@ -1011,6 +1026,11 @@ class Check(PropertyCheck):
         out = parse_real(text)
         out['text'] = text
         out['file'] = read_real(text, 'f')
+        # a FILE is read in text mode with universal newlines: '\r\n' and a lone '\r' arrive as '\n'.  Only texts with a
+        # lone '\r' (inside a delimited value) are affected; for them the file reader is compared with the parse of the
+        # translated text (for every other text this IS the text)
+        as_file = text.replace('\r\n', '\n').replace('\r', '\n')
+        out['parse_as_file'] = parse_real(as_file) if as_file != text else None
         if 'exc' in out:
             return out
         V = {}
@@ -1194,13 +1214,15 @@ class Check(PropertyCheck):
         def bad(kind, detail, **kw):
             V.append(dict(kind=kind, detail=f'{detail} :: {text!r}', **kw))
         # the FILE reader must give exactly what the parser gives for the same text (same regions or same exception)
+        ref = real.get('parse_as_file') or real
         for name, fr in (real.get('file') or {}).items():
-            if ('exc' in real) != ('exc' in fr) or ('exc' in real and real['exc'] != fr['exc']) \
-                    or ('exc' not in real and fr['regions'] != real['regions']):
+            if ('exc' in ref) != ('exc' in fr) or ('exc' in ref and ref['exc'] != fr['exc']) \
+                    or ('exc' not in ref and fr['regions'] != ref['regions']):
                 got = fr.get('exc') or f"{len(fr['regions'])} regions"
-                exp = real.get('exc') or f"{len(real['regions'])} regions"
-                n = next((i for i, (a, b) in enumerate(zip(fr.get('regions', []), real.get('regions', []))) if a != b), None)
+                exp = ref.get('exc') or f"{len(ref['regions'])} regions"
+                n = next((i for i, (a, b) in enumerate(zip(fr.get('regions', []), ref.get('regions', []))) if a != b), None)
                 bad('file_read_differs_from_parse', f"{fr['spell']} gives {got}, Regions.parse(text, format='ds9') gives {exp}"
+                                                    + (' [text with universal newlines]' if ref is not real else '')
                                                     + (f' (first difference at region {n})' if n is not None else ''))
         if 'exc' in real:
             if not any(v['kind'] == 'exception' for v in V):
